@@ -310,9 +310,12 @@ def build_contracted(sd):
         pos += r
         if len(chunk) == 1:
             chunk.append(_sym(rng.choice(NAMES["g"])))
-        name = rng.choice(["f", "d"]) if len(chunk) == 2 else rng.choice(["V", "w2"])
+        name = rng.choice(["f", "d", "t2", "Y"]) if len(chunk) == 2 else rng.choice(["V", "w2", "t2", "Y"])
         h = len(chunk) // 2
-        t = AntiSymmetricTensor(name, tuple(chunk[:h]), tuple(chunk[h:]))
+        # amplitudes (ground-state t2 with singles and doubles under one name, ADC vector Y)
+        # are objects of class Amplitude
+        C_ = Amplitude if name in ("t2", "Y") else AntiSymmetricTensor
+        t = C_(name, tuple(chunk[:h]), tuple(chunk[h:]))
         if t is S.Zero:
             return S.Zero, None, "free"
         tensors.append(t)
@@ -330,10 +333,9 @@ def build_contracted(sd):
         forb = {}
         from adcgen.sympy_objects import SymbolicTensor
         for t in sorted(set(x.name for x in Mul(*tensors).atoms(SymbolicTensor))):
-            n = 2 if t in ("f", "d") else 4
-            blocks = ["oo", "ov", "vv"] if n == 2 else ["oooo", "ooov", "oovv", "ovov", "ovvv", "vvvv",
-                                                          "ovoo", "vvoo", "vvov"]
-            forb[t] = rng.sample(blocks, rng.randint(1, max(1, len(blocks) // 2)))
+            blocks = ["oo", "ov", "vv", "vo", "oooo", "ooov", "oovv", "ovov", "ovvv", "vvvv",
+                      "ovoo", "vvoo", "vvov"]
+            forb[t] = rng.sample(blocks, rng.randint(1, len(blocks) // 2))
         rules = Rules(forb)
     return expr, rules, "free"
 
@@ -453,7 +455,7 @@ def main():
         if st == "error" and "HarnessError" in r.get("error", ""):
             run.harness_error(r["error"])
     # (b)
-    n = 90 if quick else 1500
+    n = 200 if quick else 2500
     base = seed() * 1000003 + 100
     citems = [(base + k, bool(k % 2)) for k in range(n)]
     cres = pmap(run_contracted, citems, limit=300)
